@@ -59,6 +59,29 @@ type ContractSet struct {
 	Lemmas  []*Lemma
 	Tables  []*TableRule
 	Files   []string
+	StateInvs  []*StateInv
+	EventHavoc map[string][]string
+	StateUnits []*StateUnitDecl
+	CtxScope   map[string][]string
+}
+
+// StateInv: a state-indexed data invariant of one table (FSM layer). An
+// entry invariant holds whenever the state's action starts; a rest invariant
+// holds whenever the machine rests in the state (action returned NoOp/OnRetry).
+type StateInv struct {
+	PkgPath string
+	Table   string
+	Target  string // state constant or set name
+	Rest    bool
+	Clause  *Clause
+}
+
+type StateUnitDecl struct {
+	PkgPath string
+	Table   string
+	Props   []string
+	File    string
+	Line    int
 }
 
 // TableRule: an FSM-layer obligation family, see fsm.go.
@@ -193,6 +216,42 @@ func (cs *ContractSet) parseFile(pkgPath, file string) error {
 				return fmt.Errorf("%s:%d: refute outside func", file, lineNo)
 			}
 			cur.Ens = append(cur.Ens, mk("refute"))
+		case "entryinv", "restinv":
+			// entryinv|restinv <table> <State|Set> [@props] [label:] <expr>
+			fs := strings.SplitN(rest, " ", 3)
+			if len(fs) < 3 {
+				return fmt.Errorf("%s:%d: %s <table> <state|set> <expr>", file, lineNo, kw)
+			}
+			rest = strings.TrimSpace(fs[2])
+			cl := mk(kw)
+			cs.StateInvs = append(cs.StateInvs, &StateInv{PkgPath: pkgPath, Table: fs[0], Target: fs[1], Rest: kw == "restinv", Clause: cl})
+		case "event":
+			// event <Event> havoc <field> ...   (fields of SwapData rewritten by the service before the event is sent)
+			fs := strings.Fields(rest)
+			if len(fs) < 3 || fs[1] != "havoc" {
+				return fmt.Errorf("%s:%d: event <Event> havoc <field>...", file, lineNo)
+			}
+			if cs.EventHavoc == nil {
+				cs.EventHavoc = map[string][]string{}
+			}
+			cs.EventHavoc[fs[0]] = append(cs.EventHavoc[fs[0]], fs[2:]...)
+		case "ctxscope":
+			// ctxscope <MessageType> <State...>: the message type is only ever applied to machines in these states
+			fs := strings.Fields(rest)
+			if len(fs) < 2 {
+				return fmt.Errorf("%s:%d: ctxscope <MessageType> <State...>", file, lineNo)
+			}
+			if cs.CtxScope == nil {
+				cs.CtxScope = map[string][]string{}
+			}
+			cs.CtxScope[fs[0]] = append(cs.CtxScope[fs[0]], fs[1:]...)
+		case "stateunits":
+			// stateunits <table> <props...> : properties whose check runs the per-state units of that table
+			fs := strings.Fields(rest)
+			if len(fs) < 2 {
+				return fmt.Errorf("%s:%d: stateunits <table> <props...>", file, lineNo)
+			}
+			cs.StateUnits = append(cs.StateUnits, &StateUnitDecl{PkgPath: pkgPath, Table: fs[0], Props: fs[1:], File: file, Line: lineNo})
 		case "loop":
 			// loop <n> invariant <expr>
 			fs := strings.SplitN(rest, " ", 3)
